@@ -513,13 +513,14 @@ impl<'a> World<'a> {
             s.cb.send_err_left = 0;
         }
         // (due time, seq, dir, bytes) — total order by (time, seq)
-        let mut q: Vec<(u64, u64, usize, Vec<u8>)> = Vec::new();
+        let mut q: std::collections::BinaryHeap<std::cmp::Reverse<(u64, u64, usize, Vec<u8>)>> = std::collections::BinaryHeap::new();
+        let mut same_time_ticks = 0u32;
         let mut seq = 0u64;
         let mut now = 0u64; // suffix-global time; endpoint clocks advance in lock-step from their own origins
         for dir in 0..2 {
             for d in std::mem::take(&mut self.wire[dir]) {
                 seq += 1;
-                q.push((now + rng.range(lat_lo, lat_hi), seq, dir, d.bytes));
+                q.push(std::cmp::Reverse((now + rng.range(lat_lo, lat_hi), seq, dir, d.bytes)));
             }
         }
         let remaining = |w: &World| -> u64 {
@@ -591,12 +592,10 @@ impl<'a> World<'a> {
                     }
                 }
             }
-            let mut qi = None;
-            for (i, e) in q.iter().enumerate() {
+            if let Some(std::cmp::Reverse(e)) = q.peek() {
                 let cand = (e.0, 10 + e.1, 2usize);
                 if next.map(|n| (cand.0, cand.1) < (n.0, n.1)).unwrap_or(true) {
                     next = Some(cand);
-                    qi = Some(i);
                 }
             }
             let (t, _, kind) = match next {
@@ -607,6 +606,14 @@ impl<'a> World<'a> {
                 }
             };
             let dt = t.saturating_sub(now);
+            if dt == 0 && kind < 2 {
+                same_time_ticks += 1;
+                if same_time_ticks > 2000 {
+                    return Some(self.viol("no-progress", &[("what", "deadline does not advance")], format!("fair suffix: {} was ticked {} times at its reported deadline without the deadline moving into the future ({} obligations remain)", ["A", "B"][kind], same_time_ticks - 1, rem)));
+                }
+            } else if dt > 0 {
+                same_time_ticks = 0;
+            }
             now = t;
             for s in self.s.iter_mut() {
                 s.cb.now += dt;
@@ -618,7 +625,7 @@ impl<'a> World<'a> {
             }
             let (w0, w1) = (self.wire[0].len(), self.wire[1].len());
             let r = if kind == 2 {
-                let (_, _, dir, bytes) = q.swap_remove(qi.unwrap());
+                let std::cmp::Reverse((_, _, dir, bytes)) = q.pop().unwrap();
                 let to = 1 - dir;
                 if self.s[to].closed {
                     None
@@ -637,7 +644,7 @@ impl<'a> World<'a> {
             for dir in 0..2 {
                 for d in std::mem::take(&mut self.wire[dir]) {
                     seq += 1;
-                    q.push((now + rng.range(lat_lo, lat_hi), seq, dir, d.bytes));
+                    q.push(std::cmp::Reverse((now + rng.range(lat_lo, lat_hi), seq, dir, d.bytes)));
                 }
             }
             if let Some(v) = self.check_deadline(ctx) {
